@@ -248,6 +248,21 @@ def main(argv=None):
         print('unknown tier', args.tier)
         return 2
 
+    # every scratch file of this invocation (and of its workers and helper interpreters) lives under one directory
+    # that is removed when the invocation ends
+    import tempfile
+    import shutil
+    own = 'VERIF_SCRATCH' not in os.environ
+    if own:
+        os.environ['VERIF_SCRATCH'] = tempfile.mkdtemp(prefix='vsim-', dir='/tmp')
+    try:
+        return _main(args, pid)
+    finally:
+        if own:
+            shutil.rmtree(os.environ.pop('VERIF_SCRATCH'), ignore_errors=True)
+
+
+def _main(args, pid):
     if args.replay:
         return do_replay(pid, args.replay)
     if args.selftest_digests:
